@@ -18,7 +18,7 @@ META = {
     'outside': ['the eigenvalues of LAPACK themselves; similarity invariance is linear algebra', 'complex snapshot data (the code transposes without conjugation: documented for real data)',
                 'threshold > 0', 'rounding'],
     'assumptions': ['SVD / eig contracts; real spectrum assumed for the ordering cases (ties excluded)'],
-    'tv_per_scenario': {'quick': 0, 'thorough': 0},
+    'tv_per_scenario': {'quick': 1000, 'thorough': 1000},
 }
 
 
@@ -105,6 +105,12 @@ def tdmd(ctx, shape, variant, ortho_l, ortho_r, perm, theta=False):
             x = x.ortho_left(end_index=d - 3)
         if not ortho_r:
             x = x.ortho_right(end_index=d - 1)
+        if theta:
+            # relative cut: hand over x with left-orthonormal spatial cores (NumPy QR, value unchanged).  Then no sweep inside TT.svd truncates before
+            # the last core, whose singular values are those of the unfolding -- so "the same relative rank cut" is well defined and the dense oracle
+            # below is exact.  (For arbitrary cores the sweeps truncate on local spectra and the comparison would be unsound.)
+            from .C05 import _pre_ortho
+            x = TT(_pre_ortho([np.array(c) for c in x.cores], d, True, False))
         Xd = D.tt_full(ctx, [c for c in x.cores]).reshape(-1, m)
         ev, modes = fn(x, y, ortho_l=ortho_l, ortho_r=ortho_r)
         Xn, Yn = np.asarray(Xd), np.asarray(Yd)
